@@ -1055,6 +1055,50 @@ fn tuple_to_go_struct_type(ty: &tast::Ty) -> goty::GoType {
     }
 }
 
+// The Go name of a numeric type, for a conversion `T(x)`.
+fn go_numeric_type_name(ty: &tast::Ty) -> Option<&'static str> {
+    match ty {
+        tast::Ty::TInt8 => Some("int8"),
+        tast::Ty::TInt16 => Some("int16"),
+        tast::Ty::TInt32 => Some("int32"),
+        tast::Ty::TInt64 => Some("int64"),
+        tast::Ty::TUint8 => Some("uint8"),
+        tast::Ty::TUint16 => Some("uint16"),
+        tast::Ty::TUint32 => Some("uint32"),
+        tast::Ty::TUint64 => Some("uint64"),
+        tast::Ty::TFloat32 => Some("float32"),
+        tast::Ty::TFloat64 => Some("float64"),
+        _ => None,
+    }
+}
+
+// The value stored in the `data` field (an `any`) of a dyn value. A numeric literal there would
+// get Go's default type (`int`, `float64`) and the wrapper's assertion `self.(int32)` would fail
+// at run time, so a literal is converted to the type it was checked at.
+fn dyn_payload(goenv: &GlobalGoEnv, expr: &anf::ImmExpr, for_ty: &tast::Ty) -> goast::Expr {
+    let value = compile_imm(goenv, expr);
+    if !matches!(expr, anf::ImmExpr::ImmPrim { .. }) {
+        return value;
+    }
+    match go_numeric_type_name(for_ty) {
+        Some(name) => {
+            let go_ty = tast_ty_to_go_type(for_ty);
+            goast::Expr::Call {
+                func: Box::new(goast::Expr::Var {
+                    name: name.to_string(),
+                    ty: goty::GoType::TFunc {
+                        params: vec![go_ty.clone()],
+                        ret_ty: Box::new(go_ty.clone()),
+                    },
+                }),
+                args: vec![value],
+                ty: go_ty,
+            }
+        }
+        None => value,
+    }
+}
+
 fn compile_cexpr(goenv: &GlobalGoEnv, e: &anf::CExpr) -> goast::Expr {
     match e {
         anf::CExpr::CImm { imm } => compile_imm(goenv, imm),
@@ -1248,7 +1292,7 @@ fn compile_cexpr(goenv: &GlobalGoEnv, e: &anf::CExpr) -> goast::Expr {
 
             goast::Expr::StructLiteral {
                 fields: vec![
-                    ("data".to_string(), compile_imm(goenv, expr)),
+                    ("data".to_string(), dyn_payload(goenv, expr, for_ty)),
                     ("vtable".to_string(), vtable_expr),
                 ],
                 ty: dyn_struct_ty,
